@@ -498,6 +498,10 @@ inductive Op where
   | reopen (d : Nat)                                                 -- close + open again
   deriving DecidableEq, Repr
 
+def Op.isReopen : Op → Bool
+  | .reopen _ => true
+  | _ => false
+
 /-- `ds[frame]` -/
 def getFrame (s : State) (d : Nat) (fn : Name) : Except Err Nat :=
   match look s.dfs (d, fn) with
